@@ -2,6 +2,7 @@ package command
 
 import (
 	"context"
+	"math/big"
 
 	storageerrors "github.com/formancehq/ledger/internal/storage/sqlutils"
 
@@ -22,6 +23,27 @@ func (e *executionContext) AppendLog(ctx context.Context, log *ledger.Log) (*led
 		return log.ChainLog(nil), ret, nil
 	}
 
+	e.commander.appendMu.Lock()
+	defer e.commander.appendMu.Unlock()
+
+	return e.appendLog(ctx, log)
+}
+
+// appendTransactionLog allocates the next transaction id, builds the log with
+// it, chains it and hands it to the batcher, all under appendMu.
+func (e *executionContext) appendTransactionLog(ctx context.Context, logBuilder func(txID *big.Int) *ledger.Log) (*ledger.ChainedLog, chan struct{}, error) {
+	if e.parameters.DryRun {
+		return e.AppendLog(ctx, logBuilder(e.commander.nextTXID()))
+	}
+
+	e.commander.appendMu.Lock()
+	defer e.commander.appendMu.Unlock()
+
+	return e.appendLog(ctx, logBuilder(e.commander.nextTXID()))
+}
+
+// appendLog must be called with appendMu held.
+func (e *executionContext) appendLog(ctx context.Context, log *ledger.Log) (*ledger.ChainedLog, chan struct{}, error) {
 	chainedLog := e.commander.chainLog(log)
 	verifhook.Yield(ctx, "append.chained")
 	logging.FromContext(ctx).WithFields(map[string]any{
